@@ -11,7 +11,7 @@ Require Import Fggs.Model.PTensorOps.
 Require Import Fggs.Proofs.PTensor_bcast Fggs.Proofs.PTensor_bcast_inv Fggs.Proofs.PTensor_bcast_thm Fggs.Proofs.PTensor_bcast_xval.
 Require Import Fggs.Proofs.Axis_clone Fggs.Proofs.PTensor_struct Fggs.Proofs.PTensor_getitem Fggs.Proofs.PTensor_reprinv.
 Require Import Fggs.Proofs.PTensor_storage Fggs.Proofs.PTEqual_freshen.
-Require Import Fggs.Model.PTensorOpsCheck Fggs.Proofs.Axis_subst Fggs.Proofs.PTensor_reshape.
+Require Import Fggs.Model.PTensorOpsCheck Fggs.Proofs.Axis_subst Fggs.Proofs.PTensor_reshape Fggs.Proofs.PTensor_any.
 Local Open Scope nat_scope.
 
 (** * L2: the axis algebra *)
@@ -459,6 +459,29 @@ Theorem C06_productAxis_sem : forall rho l,
   eval rho (productAxis l) = evalL rho l /\ numel (productAxis l) = prodn l.
 Proof. exact productAxis_sem. Qed.
 Print Assumptions C06_productAxis_sem.
+
+(** * any(dim, keepdim): both code paths (the all-ones shortcut, by the pigeonhole principle; [physical.any] over
+    the axes that occur only in the reduced dimension, which index it bijectively when their product equals its
+    length).  Guard: the reduced dimension is not empty or the default is false -- [C06_any_empty_dim_refuted]
+    is the witness that the code differs from torch.any over an empty dimension with a true default. *)
+Theorem C06_any : forall (V : Type) (truth : V -> bool) (ofb : bool -> V), (forall b, truth (ofb b) = b) ->
+  forall dim keepdim (t r : ptensor V) ed,
+  wf V t -> nth_error (vaxes t) dim = Some ed ->
+  (0 < numel ed \/ truth (default t) = false) ->
+  pt_any V truth ofb dim keepdim t = Ok r ->
+  wf V r /\ default r = default t /\
+  forall idx', length idx' + 1 = length (vaxes t) ->
+    truth (denote V r (if keepdim then firstn dim idx' ++ [0] ++ skipn dim idx' else idx')) =
+    existsb (fun i => truth (denote V t (firstn dim idx' ++ i :: skipn dim idx'))) (seq 0 (numel ed)).
+Proof. exact any_refines. Qed.
+Print Assumptions C06_any.
+
+Theorem C06_any_empty_dim_refuted :
+  let t := mkPT (fun _ : list nat => false) [(1%positive, 0); (2%positive, 2)] [Phys 1 0; Sum 0 (Phys 2 2) 1] true in
+  exists r, pt_any bool (fun b => b) (fun b => b) 0 false t = Ok r /\ wf bool t /\
+            denote bool r [2] = true /\ existsb (fun i => denote bool t [i; 2]) (seq 0 (numel (Phys 1 0))) = false.
+Proof. exact any_empty_dim_refuted. Qed.
+Print Assumptions C06_any_empty_dim_refuted.
 
 (** * reshape / view
 
